@@ -73,6 +73,9 @@ pub struct SchedCase {
   pub sched: Vec<(usize, bool)>,
   pub budget: u64,
   pub crash: bool,
+  /// `napoints`: the arena's zero-fill is a scheduling point of its own (search mode; such traces are not
+  /// compared with the step machine, whose steps are atomic accesses)
+  pub napoints: bool,
 }
 
 impl SchedCase {
@@ -94,6 +97,9 @@ impl SchedCase {
     }
     if self.crash {
       let _ = writeln!(s, "crash");
+    }
+    if self.napoints {
+      let _ = writeln!(s, "napoints");
     }
     s.push_str("end\n");
     s
@@ -166,6 +172,8 @@ fn parse_one(lines: &[&str]) -> Result<SchedCase, String> {
       c.budget = n.parse().map_err(|_| format!("budget {n:?}"))?;
     } else if *l == "crash" {
       c.crash = true;
+    } else if *l == "napoints" {
+      c.napoints = true;
     } else {
       return Err(format!("line {l:?}"));
     }
@@ -322,10 +330,16 @@ struct Global {
   th: [Th; 9],
   out: String,
   loc: Loc,
+  napoints: bool,
 }
 
-static GL: Mutex<Global> =
-  Mutex::new(Global { epoch: 0, th: [TH0; 9], out: String::new(), loc: Loc { hdr: 0, refs: 0, base: 0, cap: 0 } });
+static GL: Mutex<Global> = Mutex::new(Global {
+  epoch: 0,
+  th: [TH0; 9],
+  out: String::new(),
+  loc: Loc { hdr: 0, refs: 0, base: 0, cap: 0 },
+  napoints: false,
+});
 static CV: Condvar = Condvar::new();
 
 fn gl() -> MutexGuard<'static, Global> {
@@ -351,7 +365,9 @@ enum Msg {
 thread_local! {
   static ROLE: Cell<Role> = const { Cell::new(Role::None) };
   /// a `fetch_sub` on the reference counter reached 0 during the current op
-  static UNMOUNT: Cell<bool> = const { Cell::new(false) };
+  static UNMOUNT: Cell<u32> = const { Cell::new(0) };
+  /// real ranges (arena offsets) zero-filled by the arena during the current op (Hook::zero)
+  static ZEROS: RefCell<Vec<(usize, usize)>> = const { RefCell::new(Vec::new()) };
   static REC_STEPS: Cell<u64> = const { Cell::new(0) };
   static REC_MAX: Cell<u64> = const { Cell::new(REC_LIMIT) };
   static REC_TX: RefCell<Option<Sender<Msg>>> = const { RefCell::new(None) };
@@ -469,6 +485,41 @@ impl Hook for SchedHook {
     }
   }
 
+  fn unmount(&self, _base: usize, _cap: usize) {
+    if let Role::Worker { .. } = ROLE.with(|r| r.get()) {
+      UNMOUNT.with(|u| u.set(u.get() + 1));
+    }
+  }
+
+  fn zero(&self, addr: usize, len: usize) {
+    if let Role::Worker { epoch, tid } = ROLE.with(|r| r.get()) {
+      let (base, np) = {
+        let g = gl();
+        (g.loc.base, g.napoints && g.epoch == epoch)
+      };
+      let lo = addr.wrapping_sub(base);
+      if len > 0 {
+        ZEROS.with(|z| z.borrow_mut().push((lo, lo + len)));
+      }
+      if np && len > 0 {
+        // a scheduling point of its own: park like an atomic access, then report the write
+        let fake = Access {
+          addr,
+          width: 0,
+          kind: Kind::Store,
+          ord: Ordering::Relaxed,
+          fail_ord: None,
+          operand: len as u64,
+          expected: 0,
+          file: "lib.rs",
+          line: 0,
+        };
+        let _ = self.before(&fake);
+        emit(epoch, &format!("ev t={tid} k=zero loc=mem lo={lo} hi={} at=lib.rs:clear\n", lo + len));
+      }
+    }
+  }
+
   fn after(&self, a: &Access, o: &Outcome) {
     if let Role::Worker { epoch, tid } = ROLE.with(|r| r.get()) {
       let mut g = gl();
@@ -476,9 +527,6 @@ impl Hook for SchedHook {
         return;
       }
       let loc = loc_name(&g.loc, a);
-      if loc == "refs" && a.kind == Kind::FetchSub && o.new == 0 {
-        UNMOUNT.with(|u| u.set(true));
-      }
       let ord = match a.fail_ord {
         Some(f) => format!("{}/{}", ord_name(a.ord), ord_name(f)),
         None => ord_name(a.ord).to_string(),
@@ -537,12 +585,10 @@ fn thread_op(sh: ShPtr, tid: usize, aid: u32, line: &str) -> String {
         // which the crate routes to `alloc_bytes`
         let cleared = !t[0].starts_with("alloc_aligned")
           || (t.len() >= 5 && t[3] == "0" && (t[2] == "1" || t[4] == "0"));
-        if cleared && body.starts_with("r=ok") {
-          let f = |k: &str| field(&body, k).and_then(|v| v.parse::<usize>().ok()).unwrap_or(0);
-          let (off, cap) = (f("off="), f("cap="));
-          if cap > 0 {
-            let _ = writeln!(na, "na t={tid} k=w lo={off} hi={} src=clear", off + cap);
-          }
+        // the ranges the arena REALLY zero-filled during this op (Hook::zero)
+        let _ = cleared;
+        for (lo, hi) in ZEROS.with(|z| std::mem::take(&mut *z.borrow_mut())) {
+          let _ = writeln!(na, "na t={tid} k=w lo={lo} hi={hi} src=clear");
         }
         body
       }
@@ -665,18 +711,20 @@ fn thread_op(sh: ShPtr, tid: usize, aid: u32, line: &str) -> String {
   format!("{na}{body}")
 }
 
+/// one `unmount` line per REAL release of the backing memory observed (Hook::unmount, i.e. `Memory::unmount`
+/// was entered) on this thread since the last call
 fn unmount_line(tid: usize) -> String {
-  if UNMOUNT.with(|u| u.replace(false)) {
-    let cap = gl().loc.cap;
-    format!("na t={tid} k=free lo=0 hi={cap} src=unmount\n")
-  } else {
-    String::new()
+  let n = UNMOUNT.with(|u| u.replace(0));
+  if n == 0 {
+    return String::new();
   }
+  let cap = gl().loc.cap;
+  format!("na t={tid} k=free lo=0 hi={cap} src=unmount\n").repeat(n as usize)
 }
 
 fn worker(sh: ShPtr, epoch: u64, tid: usize, ops: Vec<String>) {
   ROLE.with(|r| r.set(Role::Worker { epoch, tid }));
-  UNMOUNT.with(|u| u.set(false));
+  UNMOUNT.with(|u| u.set(0));
   let aid = THREAD_ARENA_BASE + tid as u32;
   let cur = Cell::new(0usize);
   let r = catch_unwind(AssertUnwindSafe(|| {
@@ -838,6 +886,7 @@ pub fn run_case(sc: &SchedCase, tmp: &Path, case_no: u64) -> Outcome1 {
     epoch = g.epoch;
     g.th = [TH0; 9];
     g.out = std::mem::take(&mut out);
+    g.napoints = sc.napoints;
     g.loc = Loc {
       hdr: a0.verif_header_ptr() as usize,
       refs: a0.verif_refs_ptr() as usize,
